@@ -231,18 +231,18 @@ func HolesFamily(t universe.Affine) []Operand {
 		return o
 	}
 	polys := []geom.Polygon{
-		t.Polygon(sq(0, 0, 5, 5), cw(sq(1, 1, 4, 4))),                                    // donut
-		t.Polygon(sq(0, 0, 5, 5), cw(sq(1, 1, 2, 2)), cw(sq(3, 3, 4, 4))),                // two holes
-		t.Polygon(sq(0, 0, 5, 5), cw([]universe.LPt{{0, 0}, {3, 1}, {1, 3}, {0, 0}})),    // hole touching the shell at a vertex
-		t.Polygon(sq(0, 0, 5, 5), cw(sq(1, 1, 3, 3)), cw(sq(3, 3, 4, 4))),                // holes touching each other
-		t.Polygon(sq(1, 1, 4, 4)),                                                        // exactly fills the donut hole
-		t.Polygon(sq(2, 2, 3, 3)),                                                        // nested inside the hole
-		t.Polygon(sq(0, 0, 3, 3)),                                                        // overlaps hole and ring
-		t.Polygon(sq(2, 0, 3, 5)),                                                        // bar through everything
-		t.Polygon(sq(1, 1, 2, 2)),                                                        // fills one small hole
-		t.Polygon([]universe.LPt{{1, 1}, {4, 1}, {4, 4}, {1, 1}}),                        // half of the hole
-		t.Polygon(sq(0, 0, 5, 5)),                                                        // the full square
-		t.Polygon(sq(2, 2, 12, 12), cw(sq(3, 3, 11, 11))),                                // big thin frame overlapping
+		t.Polygon(sq(0, 0, 5, 5), cw(sq(1, 1, 4, 4))),                                 // donut
+		t.Polygon(sq(0, 0, 5, 5), cw(sq(1, 1, 2, 2)), cw(sq(3, 3, 4, 4))),             // two holes
+		t.Polygon(sq(0, 0, 5, 5), cw([]universe.LPt{{0, 0}, {3, 1}, {1, 3}, {0, 0}})), // hole touching the shell at a vertex
+		t.Polygon(sq(0, 0, 5, 5), cw(sq(1, 1, 3, 3)), cw(sq(3, 3, 4, 4))),             // holes touching each other
+		t.Polygon(sq(1, 1, 4, 4)),                                                     // exactly fills the donut hole
+		t.Polygon(sq(2, 2, 3, 3)),                                                     // nested inside the hole
+		t.Polygon(sq(0, 0, 3, 3)),                                                     // overlaps hole and ring
+		t.Polygon(sq(2, 0, 3, 5)),                                                     // bar through everything
+		t.Polygon(sq(1, 1, 2, 2)),                                                     // fills one small hole
+		t.Polygon([]universe.LPt{{1, 1}, {4, 1}, {4, 4}, {1, 1}}),                     // half of the hole
+		t.Polygon(sq(0, 0, 5, 5)),                                                     // the full square
+		t.Polygon(sq(2, 2, 12, 12), cw(sq(3, 3, 11, 11))),                             // big thin frame overlapping
 	}
 	var out []Operand
 	for _, p := range polys {
@@ -295,8 +295,8 @@ func StarFamily(t universe.Affine, level int) []Operand {
 	c := universe.LPt{X: 1, Y: 1}
 	pool := [][]universe.LPt{
 		{c, {2, 1}}, {{1, 2}, c}, {c, {0, 1}}, {{0, 0}, c}, // spokes (both directions occur)
-		{{0, 1}, c, {2, 1}}, {{1, 0}, c, {1, 2}},           // straight pass-throughs
-		{{2, 2}, c, {2, 0}},                                // elbow through the centre
+		{{0, 1}, c, {2, 1}}, {{1, 0}, c, {1, 2}}, // straight pass-throughs
+		{{2, 2}, c, {2, 0}}, // elbow through the centre
 		{c, {1, 0}},
 		{{2, 2}, c}, {c, {0, 2}}, {{2, 0}, c},
 		{{0, 0}, c, {2, 2}}, {{0, 1}, c, {1, 2}}, {c, {2, 1}, {2, 2}, c}, // diagonal pass-through, elbow, closed loop at the centre
